@@ -7,7 +7,7 @@
 /// Direct access to the HPACK encoder / decoder and the Huffman codec.
 pub mod hpack {
     pub use crate::hpack::huffman::{decode as huffman_decode, encode as huffman_encode};
-    pub use crate::hpack::{BytesStr, Decoder, DecoderError, Encoder, Header, NeedMore};
+    pub use crate::hpack::{BytesStr, Decoder, DecoderError, Encoder, Header};
 
     /// `(name, value)` octets of a decoded header.
     pub fn header_octets(h: &Header) -> (Vec<u8>, Vec<u8>) {
